@@ -18,9 +18,15 @@ def state_stores(f):
     """All stores through a `&mut State` obtained from a MutexGuard<State>: list of dicts
     {body, bb, idx, value (variant name or 'param'), guard (local)}"""
     out = []
+    from . import inline
     for p, b in f.bodies.items():
         if "circuitbreaker" not in p:
             continue
+        # private helpers are read where they are used: in the normalised view of the public / trait-role function (or closure)
+        # that calls them, so a store is judged together with the test and the lock that surround the helper call
+        if inline.default_policy(f, b, b) and f.callers_of(p):
+            continue
+        b = f.view(b)
         for bi, blk in enumerate(b.blocks):
             if blk["cleanup"]:
                 continue
@@ -58,33 +64,57 @@ def state_stores(f):
 
 
 def guard_test(f, b, store):
-    """The `*guard == State::X` test on the same guard whose true edge dominates the store.
-    Returns (X, test_block, true_target) or None."""
+    """The test of the previous state on the same guard that dominates the store: `*guard == State::X` (store on the true edge),
+    `*guard != State::X` with an early return (store on the false edge), or a `match *guard` whose X arm leads to the store.
+    Returns (X, test_block, edge_target) or None."""
     sl = Slicer(f, b)
+    names = state_names(f)
     best = None
     for d in sorted(b.dominators().get(store["bb"], ())):
         t = b.term(d)
-        if not t or t["k"] != "switch" or t.get("ty") != "bool":
+        if not t or t["k"] != "switch":
             continue
         pl = op_place(t["op"])
         if pl is None:
             continue
         dd = def_of_local(b, pl["l"])
-        if not dd or dd[0] != "call" or not callee_is(dd[3], "PartialEq::eq"):
-            continue
-        eqt = dd[3]
-        # one side derefs the guard local, the other is a State constant
-        sides = [sl.of_operand(a) for a in eqt["args"]]
-        gi = [i for i, a in enumerate(sides) if ("lid:%d" % store["guard"]) in a or _refs_local(b, eqt["args"][i], store["guard"])]
-        if not gi:
-            continue
-        other = sides[1 - gi[0]]
-        vs = sorted(a.rsplit("::", 1)[1] for a in other if a.startswith("variant:" + STATE_ADT))
-        if len(vs) != 1:
-            continue
-        te = bool_edge_targets(b, d)
-        if te and b.dominates(te[0], store["bb"]) and not b.dominates(te[1], store["bb"]):
-            best = (vs[0], d, te[0])
+        if t.get("ty") == "bool":
+            neg = False
+            # `!(a == b)` compiles to Not(eq(..))
+            if dd and dd[0] == "assign" and dd[3]["rv"]["k"] == "un" and dd[3]["rv"]["op"] == "Not":
+                p2 = op_place(dd[3]["rv"]["a"])
+                dd = def_of_local(b, p2["l"]) if p2 else None
+                neg = True
+            if not dd or dd[0] != "call" or not callee_is(dd[3], "PartialEq::eq", "PartialEq::ne"):
+                continue
+            if callee_is(dd[3], "PartialEq::ne"):
+                neg = not neg
+            eqt = dd[3]
+            # one side derefs the guard local, the other is a State constant
+            sides = [sl.of_operand(a) for a in eqt["args"]]
+            gi = [i for i, a in enumerate(sides) if ("lid:%d" % store["guard"]) in a or _refs_local(b, eqt["args"][i], store["guard"])]
+            if not gi:
+                continue
+            other = sides[1 - gi[0]]
+            vs = sorted(a.rsplit("::", 1)[1] for a in other if a.startswith("variant:" + STATE_ADT))
+            if len(vs) != 1:
+                continue
+            te = bool_edge_targets(b, d)
+            if not te:
+                continue
+            good, bad = (te[1], te[0]) if neg else (te[0], te[1])
+            if b.dominates(good, store["bb"]) and not b.dominates(bad, store["bb"]):
+                best = (vs[0], d, good)
+        elif dd and dd[0] == "assign" and dd[3]["rv"]["k"] == "discr" and _refs_local(b, {"k": "copy", "pl": {"l": dd[3]["rv"]["pl"]["l"], "p": []}}, store["guard"]):
+            # match *guard { State::X => .. }
+            arms = [(val, tg) for val, tg in t["targets"] if b.dominates(tg, store["bb"])]
+            others = [tg for val, tg in t["targets"] if not b.dominates(tg, store["bb"])] + ([t["otherwise"]] if not b.dominates(t["otherwise"], store["bb"]) else [])
+            if len(arms) == 1 and arms[0][0] < len(names) and not any(b.dominates(o, store["bb"]) for o in others):
+                best = (names[arms[0][0]], d, arms[0][1])
+            elif not arms and b.dominates(t["otherwise"], store["bb"]) and len(t["targets"]) == len(names) - 1:
+                rest = [n for i, n in enumerate(names) if i not in {v for v, _ in t["targets"]}]
+                if len(rest) == 1:
+                    best = (rest[0], d, t["otherwise"])
     return best
 
 
